@@ -159,12 +159,37 @@ class StaleTime:
                 if key and key in st and any(c for _, c in st[key]):
                     stale = True
                     sv = key
-            elif isinstance(n, ast.Name) and n.id in st:
+            elif isinstance(n, ast.Name) and n.id in st and not n.id.startswith("@ev:"):
                 derived = True
                 if any(c for _, c in st[n.id]):
                     stale = True
                     sv = n.id
         return derived, stale, sv
+
+    def _is_emission_ctor(self, c: ast.AST) -> ast.AST | None:
+        """Time argument of an Event construction, or None."""
+        if not isinstance(c, ast.Call):
+            return None
+        p = path_of(c.func)
+        if p is None:
+            return None
+        last = p.split(".")[-1]
+        if not ((last in self.ev_names and not p.startswith("self.")) or p.endswith("Event.once")):
+            return None
+        for k in c.keywords:
+            if k.arg == "time":
+                return k.value
+        return c.args[0] if c.args else None
+
+    def _bare_fresh(self, t: ast.AST | None, st) -> bool:
+        """Is ``t`` exactly a fresh (uncrossed) time value — a time source or a time-derived local, no arithmetic?"""
+        if t is None:
+            return False
+        if isinstance(t, ast.IfExp):
+            return self._bare_fresh(t.body, st) or self._bare_fresh(t.orelse, st)
+        if is_time_source(t, self.event_params):
+            return True
+        return isinstance(t, ast.Name) and t.id in st and not any(c for _, c in st[t.id])
 
     def _run(self) -> None:
         cfg = self.cfg
@@ -207,14 +232,49 @@ class StaleTime:
                             if isinstance(t, ast.BinOp) and isinstance(t.op, ast.Sub):
                                 kind = "minus"
                             if isinstance(t, ast.IfExp):
-                                kind = "exact" if all(self._taint(b, st)[1] or isinstance(b, ast.Constant) or path_of(b) for b in (t.body, t.orelse)) else "plus"
+                                # `fresh_now if clock else stale` re-reads the clock: exact only when no branch is a fresh source
+                                def br_stale(b):
+                                    return path_of(b) is not None and self._taint(b, st)[1]
+                                fresh_branch = any(is_time_source(b, self.event_params) and not self._taint(b, st)[1] for b in (t.body, t.orelse))
+                                kind = "exact" if (not fresh_branch and any(br_stale(b) for b in (t.body, t.orelse))) else "plus"
                             seen_use[(id(c), sv or "")] = StaleUse(self.fn, c, t, sv or "?", None, kind in ("exact", "minus"), kind)
+                # event objects built before a clock-advancing suspension and handed to the engine after it
+                a_ = n.ast
+                handed: list[ast.AST] = []
+                if n.kind == "stmt" and isinstance(a_, ast.Return) and a_.value is not None:
+                    handed.append(a_.value)
+                for e in own_exprs(n):
+                    for y in walk_scope(e):
+                        if isinstance(y, ast.Yield) and isinstance(y.value, ast.Tuple) and len(y.value.elts) >= 2:
+                            handed.append(y.value.elts[1])
+                for hexpr in handed:
+                    popped = {path_of(c.func.value) for c in walk_scope(hexpr) if isinstance(c, ast.Call) and isinstance(c.func, ast.Attribute)
+                              and c.func.attr == "pop" and not c.args}
+                    for nm in walk_scope(hexpr):
+                        if isinstance(nm, ast.Name) and f"@ev:{nm.id}" in st and any(c for _, c in st[f"@ev:{nm.id}"]):
+                            if nm.id in popped and any(not c for _, c in st[f"@ev:{nm.id}"]):
+                                continue  # `.pop()` hands over the most recently appended object, which is fresh
+                            # `.pop()` / indexing of the list still hands over a stale object
+                            seen_use[(id(hexpr), nm.id)] = StaleUse(self.fn, hexpr if isinstance(hexpr, ast.Call) else ast.Call(func=ast.Name(id="emit", ctx=ast.Load()), args=[hexpr], keywords=[]),
+                                                                    hexpr, nm.id, None, True, "object")
             # 2. suspension
             if n.id not in susp_cache:
                 susp_cache[n.id] = node_suspension(self.prog, self.fn, n) if n.kind in ("stmt", "test", "for", "with") else None
             out = st
+            # `lst.pop()` takes the most recently appended (fresh) object out of the list again
+            for e_ in own_exprs(n):
+                for c_ in walk_scope(e_):
+                    if isinstance(c_, ast.Call) and isinstance(c_.func, ast.Attribute) and c_.func.attr == "pop" and not c_.args \
+                            and isinstance(c_.func.value, ast.Name) and f"@ev:{c_.func.value.id}" in out:
+                        key_ = f"@ev:{c_.func.value.id}"
+                        rest = frozenset(x for x in out[key_] if x[1])
+                        out = dict(out)
+                        if rest:
+                            out[key_] = rest
+                        else:
+                            out.pop(key_, None)
             if susp_cache[n.id] == "advance":
-                out = {k: frozenset((d, True) for d, _ in v) for k, v in st.items()}
+                out = {k: frozenset((d, True) for d, _ in v) for k, v in out.items()}
             # 3. defs
             if n.kind in ("stmt", "for", "with") and n.ast is not None:
                 tg = write_targets(n.ast)
@@ -235,6 +295,39 @@ class StaleTime:
                             pass  # keeps its taint
                         else:
                             out.pop(name, None)
+            # 3b. event objects stamped with the current time: `x = Event(time=<fresh now>)`, `lst.append(Event(...))`, `lst = [Event(...)]`
+            if n.kind == "stmt" and n.ast is not None:
+                a_ = n.ast
+                holders: list[tuple[str, bool]] = []
+                if isinstance(a_, (ast.Assign, ast.AnnAssign)) and getattr(a_, "value", None) is not None:
+                    tgt = a_.targets[0] if isinstance(a_, ast.Assign) else a_.target
+                    if isinstance(tgt, ast.Name):
+                        ctors = [c for c in walk_scope(a_.value) if self._is_emission_ctor(c) is not None]
+                        fresh = [c for c in ctors if self._bare_fresh(self._is_emission_ctor(c), out)]
+                        if fresh:
+                            holders.append((tgt.id, True))
+                        elif isinstance(a_.value, ast.Name) and f"@ev:{a_.value.id}" in out:
+                            out = dict(out)
+                            out[f"@ev:{tgt.id}"] = out[f"@ev:{a_.value.id}"]  # alias of a list of stamped events
+                        elif f"@ev:{tgt.id}" in out:
+                            out = dict(out)
+                            out.pop(f"@ev:{tgt.id}", None)
+                elif isinstance(a_, ast.Expr) and isinstance(a_.value, ast.Call) and isinstance(a_.value.func, ast.Attribute) \
+                        and a_.value.func.attr in ("append", "extend", "insert") and isinstance(a_.value.func.value, ast.Name):
+                    ctors = [c for arg in a_.value.args for c in walk_scope(arg) if self._is_emission_ctor(c) is not None]
+                    if any(self._bare_fresh(self._is_emission_ctor(c), out) for c in ctors):
+                        holders.append((a_.value.func.value.id, False))
+                    elif a_.value.func.attr == "clear":
+                        pass
+                elif isinstance(a_, ast.Expr) and isinstance(a_.value, ast.Call) and isinstance(a_.value.func, ast.Attribute) \
+                        and a_.value.func.attr == "clear" and isinstance(a_.value.func.value, ast.Name) and f"@ev:{a_.value.func.value.id}" in out:
+                    out = dict(out)
+                    out.pop(f"@ev:{a_.value.func.value.id}", None)
+                for nm, replace in holders:
+                    out = dict(out)
+                    key = f"@ev:{nm}"
+                    newv = frozenset({(getattr(a_, "lineno", 0), False)})
+                    out[key] = newv if replace else (out.get(key, frozenset()) | newv)
             for s, _ in n.succ:
                 prev = state_in.get(s.id)
                 if prev is None:
